@@ -87,7 +87,7 @@ func runC03History(rec *vk.Rec, ci int) {
 		case 1:
 			exp = now.Add(24 * time.Hour)
 		}
-		k.foreign = i >= 4 && r.Chance(10)
+		k.foreign = i >= 4 && r.Chance(20)
 		k.desc = fmt.Sprintf("k%d{target=%s mask=%q expired=%v foreign=%v}", i, k.t.String(), permString(k.mask), k.expired, k.foreign)
 		k.key = b.RawKey(func(x security.Key) {
 			x.SetSalt(uint16(r.U32()))
@@ -96,8 +96,15 @@ func runC03History(rec *vk.Rec, ci int) {
 			if err := x.SetTarget(k.t.String()); err != nil {
 				panic(err)
 			}
-			if k.foreign {
-				x.SetContract(x.Contract() + 1 + uint32(r.Intn(5)))
+			if k.foreign { // another contract, a wrong signature or another master id: never accepted, however often presented
+				switch r.Intn(3) {
+				case 0:
+					x.SetContract(x.Contract() + 1 + uint32(r.Intn(5)))
+				case 1:
+					x.SetSignature(x.Signature() ^ (1 << uint(r.Intn(32))))
+				default:
+					x.SetMaster(x.Master() + 1 + uint16(r.Intn(3)))
+				}
 			}
 		})
 		pool = append(pool, k)
